@@ -26,7 +26,12 @@ def _check_docstring(decorated_func: DecoratedFunction) -> None:
                 raise PedanticDocstringException(
                     f'{err} Documented type is incorrect: Annotation: {expected_type} Documented: {actual_return_type}')
         elif annotation != 'return':
-            docstring_param = list(filter(lambda p, a=annotation: p.arg_name == a, doc.params))[0]
+            documented_params = list(filter(lambda p, a=annotation: p.arg_name == a, doc.params))
+
+            if not documented_params:
+                raise PedanticDocstringException(f'{err} Parameter {annotation} is not documented.')
+
+            docstring_param = documented_params[0]
             actual_param_type = _parse_documented_type(type_=docstring_param.type_name, context=context, err=err)
 
             if expected_type != actual_param_type:
